@@ -24,7 +24,12 @@ def _known_f18(entry):
     return f"token {bad[0][0]!r} has source slice {bad[0][1]}" if bad else None
 
 
-KNOWN = {"F18": _known_f18}
+def _known_collide(entry):
+    from harness import tmpl_python
+    return tmpl_python.known_collide(entry)
+
+
+KNOWN = {"F18": _known_f18, "PY_COLLIDE": _known_collide}
 
 KIND = {"L": "literal", "T": "templated", "Z": "templated", "C": "comment", "S": "block_start", "E": "block_end",
         "M": "block_mid", "X": "escaped"}
@@ -553,6 +558,8 @@ def units(tier, seed):
             stubs=["matchers -> arbitrary prefix; whitespace/newline/last-resort obey the per-dialect regex contract "
                    "proved by c01.regex_totality"],
             witnesses_required=["last_resort_used"], sharded=True, timeout_s=t))
+    from harness import tmpl_python
+    us += tmpl_python.process_units("C01", tier)
     us.append(Unit(
         name="c01.regex_totality[all dialects]",
         functions=["live lexer matchers of every bundled dialect (whitespace, newline) + PyLexer last-resort pattern"],
